@@ -512,4 +512,77 @@ theorem squareOK_x1 : SquareOK x1 := square_spec_x1
 theorem not_squareOK_x3 : ¬ SquareOK x3 := fun h => square_defect_x3.2.2 (h _ square_defect_x3.1).2
 theorem not_squareOK_x5 : ¬ SquareOK x5 := fun h => square_defect_x5.2.2 (h _ square_defect_x5.1).2
 
+
+/-! ### xsquare, sqrt (structural facts; relative to `SquareOK`, which holds at lvl1 only) -/
+
+theorem xsquare_lt (P : X86Params) (hsq : SquareOK P) (k : Nat) :
+    ∀ a, a < 2 ^ P.B → xsquare P a k < 2 ^ P.B := by
+  induction k with
+  | zero => intro a ha; exact ha
+  | succ k ih => intro a ha; exact ih _ (hsq a ha).1
+
+/-- `sqrt`: the returned value is in range, its canonical (non-Montgomery) value `encode` is even, and the
+    flag is exactly "the square of the returned value represents `a`".
+    (That the candidate `a^((q+1)/4)` is a root whenever `a` is a square is number theory on top of this.) -/
+theorem sqrt_spec (P : X86Params) (hP : IsLvl P) (hsq : SquareOK P) (a : Nat) (ha : a < 2 ^ P.B) :
+    (sqrt P a).1 < 2 ^ P.B ∧ encode P (sqrt P a).1 % 2 = 0 ∧
+    ((sqrt P a).2 = T32 ↔ square P (sqrt P a).1 % P.q = a % P.q) ∧
+    ((sqrt P a).2 = T32 ∨ (sqrt P a).2 = 0) := by
+  unfold sqrt
+  simp only
+  have hBR : 2 ^ P.B < P.R := by rcases hP with rfl | rfl | rfl <;> decide
+  have hy0 : (if P.sqCube then mul P (square P a) a else a) < 2 ^ P.B := by
+    split
+    · exact (mul_spec P hP _ _ (hsq a ha).1 ha).1
+    · exact ha
+  generalize (if P.sqCube then mul P (square P a) a else a) = y0 at *
+  have hy1 : mul P (xsquare P y0 P.sqK1) y0 < 2 ^ P.B :=
+    (mul_spec P hP _ _ (xsquare_lt P hsq _ _ hy0) hy0).1
+  generalize mul P (xsquare P y0 P.sqK1) y0 = y1 at *
+  have hy : xsquare P y1 P.sqK2 < 2 ^ P.B := xsquare_lt P hsq _ _ hy1
+  generalize xsquare P y1 P.sqK2 = y at *
+  -- the selected value
+  have hsel : ∃ r, select P y (neg P y) (if montgomery_reduce P y % 2 = 1 then T32 else 0) = r ∧
+      r < 2 ^ P.B ∧ encode P r % 2 = 0 := by
+    have hn := neg_spec P hP y hy
+    have m1 := montgomery_reduce_spec P hP y (by omega)
+    have m2 := montgomery_reduce_spec P hP (neg P y) (by omega)
+    by_cases hodd : montgomery_reduce P y % 2 = 1
+    · rw [if_pos hodd, select_T32 P hP _ _ (by omega) (by omega)]
+      refine ⟨_, rfl, hn.1, ?_⟩
+      unfold encode
+      have hsum : ((montgomery_reduce P (neg P y) + montgomery_reduce P y) * P.R) % P.q = (0 * P.R) % P.q := by
+        rw [Nat.add_mul, Nat.add_mod, m1.2, m2.2, ← Nat.add_mod, hn.2, Nat.zero_mul, Nat.zero_mod]
+      have hc := R_cancel P hP _ _ hsum
+      have hq2 : P.q % 2 = 1 := by rcases hP with rfl | rfl | rfl <;> decide
+      rw [Nat.zero_mod] at hc
+      generalize montgomery_reduce P (neg P y) = m at *
+      generalize montgomery_reduce P y = m' at *
+      have h3 : m + m' = P.q := by
+        obtain ⟨c, hc'⟩ := Nat.dvd_of_mod_eq_zero hc
+        have : c = 1 := by
+          have h4 : m + m' < 2 * P.q := by omega
+          have h5 : 0 < m + m' := by omega
+          rcases c with _ | _ | c
+          · omega
+          · rfl
+          · rw [hc'] at h4
+            have : P.q * 2 ≤ P.q * (c + 1 + 1) := Nat.mul_le_mul_left _ (by omega)
+            omega
+        rw [hc', this, Nat.mul_one]
+      omega
+    · rw [if_neg hodd, select_zero]
+      refine ⟨_, rfl, hy, ?_⟩
+      unfold encode; omega
+  obtain ⟨r, hr, hrlt, hrev⟩ := hsel
+  rw [hr]
+  have he := equals_spec P hP (square P r) a (hsq r hrlt).1 ha
+  exact ⟨hrlt, hrev, he.1, he.2⟩
+
+theorem sqrt_spec_x1 (a : Nat) (ha : a < 2 ^ x1.B) :
+    (sqrt x1 a).1 < 2 ^ x1.B ∧ encode x1 (sqrt x1 a).1 % 2 = 0 ∧
+    ((sqrt x1 a).2 = T32 ↔ square x1 (sqrt x1 a).1 % x1.q = a % x1.q) ∧
+    ((sqrt x1 a).2 = T32 ∨ (sqrt x1 a).2 = 0) :=
+  sqrt_spec x1 (Or.inl rfl) squareOK_x1 a ha
+
 end SqiProofs.GfX86
